@@ -63,8 +63,9 @@ def r08_1(ctx):
                        if ok else 'handler can catch SystemExit and completes normally although the '
                        'termination handler requested exit (the worker goes on to take further jobs)',
                        path=w)
-                if all(isinstance(s, ast.Raise) and s.exc is None for s in h.body) and h.body:
-                    earlier = True
+                # the first handler whose type matches takes the exception: handlers after one that catches SystemExit
+                # never see a SystemExit
+                earlier = True
     # the flag tested is the one the signal handler sets, and reset_signals installs that handler
     common = m.modules.get('common')
     q.need(common is not None, 'billiard/common.py not found')
